@@ -731,6 +731,41 @@ func OpenWith(path string, vLogs []appendable.Appendable, txLog, cLog appendable
 		}
 	}
 
+	// A rewind of the hash tree (discarded precommitted transactions) becomes durable only with its
+	// next sync: after a crash it may still hold the digests of discarded transactions whose ids were
+	// reused by other transactions. Entries not matching the transaction log are dropped and rebuilt.
+	for ahtSize := store.aht.Size(); ahtSize > 0; ahtSize-- {
+		hdr, err := store.ReadTxHeader(ahtSize, true, false)
+		if err != nil {
+			store.Close()
+			return nil, fmt.Errorf("binary-linking validation failed: %w", err)
+		}
+
+		alh := hdr.Alh()
+
+		root, err := store.aht.RootAt(ahtSize)
+		if err != nil {
+			store.Close()
+			return nil, fmt.Errorf("binary-linking validation failed: %w", err)
+		}
+
+		proof, err := store.aht.InclusionProof(ahtSize, ahtSize)
+		if err != nil {
+			store.Close()
+			return nil, fmt.Errorf("binary-linking validation failed: %w", err)
+		}
+
+		if ahtree.VerifyLastInclusion(proof, ahtSize, leafFor(alh), root) {
+			break
+		}
+
+		err = store.aht.ResetSize(ahtSize - 1)
+		if err != nil {
+			store.Close()
+			return nil, fmt.Errorf("binary-linking validation failed: %w", err)
+		}
+	}
+
 	if store.aht.Size() == precommittedTxID {
 		store.logger.Infof("binary-linking up to date at '%s'", store.path)
 	} else {
